@@ -574,12 +574,12 @@ def terminal_agreement(prop, scns, results):
 def extra_jobs(prop, tier, scns, results):
     jobs = []
     if prop == 'C11':
-        names = ['gauss', 'blob_float', 'wrap_net', 'ring_net'] if tier == 'quick' else [
+        names = ['gauss', 'blob_float', 'wrap_net'] if tier == 'quick' else [
             'gauss', 'blob_float', 'wrap_net', 'two', 'gauss_net', 'blob_two_obj', 'half', 'ring_net',
-            'funnel_net', 'nlb_ring', 'two_split']
+            'funnel_net', 'nlb_ring', 'two_split', 'ring_split_net']
         for s in scenarios.get(names):
             d = dict(s)
-            depth = (40 if s.name == 'ring_net' else 12) if tier == 'quick' else 60
+            depth = 12 if tier == 'quick' else 80
             jobs.append(('pair', d, dict(vectorized=False), dict(vectorized=True), 'scalar-vs-vectorized', depth))
             jobs.append(('pair', d, dict(verbose=False), dict(verbose=True), 'verbose', depth))
             jobs.append(('pair', d, dict(file=True), dict(file=False), 'file-vs-nofile', depth))
@@ -588,6 +588,11 @@ def extra_jobs(prop, tier, scns, results):
             jobs.append(('pair', dict(d, n_batch=nb), dict(pool_l=2), dict(pool_l=3), 'pool-2-vs-3', depth))
             if tier == 'thorough':
                 jobs.append(('pair', dict(d, n_batch=nb), dict(pool_l=0), dict(pool_l=4), 'pool-none-vs-4', depth))
+        if tier == 'quick':
+            # non-nested bounds keep transfer candidates pending over several batches: the only place
+            # where the incrementally written transfer arrays matter for a run that is never resumed
+            for s in scenarios.get(['funnel_net', 'ring_split_net']):
+                jobs.append(('pair', dict(s), dict(file=True), dict(file=False), 'file-vs-nofile', 45))
         for s in scenarios.get(['gauss'] if tier == 'quick' else ['gauss', 'two', 'blob_float']):
             for size in ((2,) if tier == 'quick' else (1, 2, 3)):
                 jobs.append(('mp', dict(s), size, 0))
